@@ -622,7 +622,9 @@ var privateAndLocalRanges = []net.IPNet{
 	mustParseCIDR("127.0.0.0/8"),        // RFC5735
 	mustParseCIDR("0.0.0.0/8"),          // RFC1122 Section 3.2.1.3
 	mustParseCIDR("169.254.0.0/16"),     // RFC3927
-	mustParseCIDR("192.0.0.0/24"),       // RFC 5736
+	mustParseCIDR("192.0.0.0/29"),       // RFC 7335: IPv4 Service Continuity Prefix
+	mustParseCIDR("192.0.0.8/32"),       // RFC 7600: IPv4 dummy address
+	mustParseCIDR("192.0.0.170/31"),     // RFC 8880: NAT64/DNS64 Discovery
 	mustParseCIDR("192.0.2.0/24"),       // RFC 5737
 	mustParseCIDR("198.51.100.0/24"),    // Assigned as TEST-NET-2
 	mustParseCIDR("203.0.113.0/24"),     // Assigned as TEST-NET-3
@@ -635,7 +637,6 @@ var privateAndLocalRanges = []net.IPNet{
 	mustParseCIDR("::/128"),             // RFC 4291: Unspecified Address
 	mustParseCIDR("::1/128"),            // RFC 4291: Loopback Address
 	mustParseCIDR("100::/64"),           // RFC 6666: Discard Address Block
-	mustParseCIDR("2001::/23"),          // RFC 2928: IETF Protocol Assignments
 	mustParseCIDR("2001:2::/48"),        // RFC 5180: Benchmarking
 	mustParseCIDR("2001:db8::/32"),      // RFC 3849: Documentation
 	mustParseCIDR("2001::/32"),          // RFC 4380: TEREDO
@@ -650,7 +651,9 @@ var privateRange = []net.IPNet{
 	mustParseCIDR("172.16.0.0/12"),      // private
 	mustParseCIDR("192.168.0.0/16"),     // private
 	mustParseCIDR("0.0.0.0/8"),          // RFC1122 Section 3.2.1.3
-	mustParseCIDR("192.0.0.0/24"),       // RFC 5736
+	mustParseCIDR("192.0.0.0/29"),       // RFC 7335: IPv4 Service Continuity Prefix
+	mustParseCIDR("192.0.0.8/32"),       // RFC 7600: IPv4 dummy address
+	mustParseCIDR("192.0.0.170/31"),     // RFC 8880: NAT64/DNS64 Discovery
 	mustParseCIDR("192.0.2.0/24"),       // RFC 5737
 	mustParseCIDR("198.51.100.0/24"),    // Assigned as TEST-NET-2
 	mustParseCIDR("203.0.113.0/24"),     // Assigned as TEST-NET-3
@@ -662,7 +665,6 @@ var privateRange = []net.IPNet{
 	mustParseCIDR("100.64.0.0/10"),      // RFC 6598
 	mustParseCIDR("::/128"),             // RFC 4291: Unspecified Address
 	mustParseCIDR("100::/64"),           // RFC 6666: Discard Address Block
-	mustParseCIDR("2001::/23"),          // RFC 2928: IETF Protocol Assignments
 	mustParseCIDR("2001:2::/48"),        // RFC 5180: Benchmarking
 	mustParseCIDR("2001:db8::/32"),      // RFC 3849: Documentation
 	mustParseCIDR("2001::/32"),          // RFC 4380: TEREDO
